@@ -748,6 +748,38 @@ pub fn gen_c14(r: &mut Rng) -> (String, Sim) {
     let mut stash: Vec<Ev> = Vec::new();
     let n = 12 + r.below(30);
     let mut want_ts = false;
+    if r.chance(1, 3) {
+        // scripted prefix: (optionally) an own-identity Announce first, then one request
+        // answered by two responders; the walk continues from the faulty port
+        kinds.insert("scripted-conflict");
+        let mut pre: Vec<Ev> = Vec::new();
+        if r.chance(1, 2) {
+            let h = w.hdr(ANNOUNCE, own, 0, r.next() as u16);
+            let a = w.masters[0].ann.clone();
+            pre.push(Ev::RecvGeneral(0, frame(&h, &announce_body(&a), &[])));
+        }
+        pre.push(Ev::DelayReqTimer(0));
+        for ev in pre {
+            if !sim.step(ev) {
+                break;
+            }
+            w.observe(&sim);
+        }
+        if let Some(seq) = w.last_pdelay_req[0] {
+            for who in 0..2 {
+                let t4 = w.tick(r);
+                let (s2, n2) = wire_ts(t4.saturating_sub(1000 * FRAC));
+                let mut body = ts10(s2, n2);
+                body.extend_from_slice(&pid10(own, 1));
+                let mut h = w.hdr(PDELAY_RESP, resp_ids[who], 1, seq);
+                h.flags[0] = 2;
+                if !sim.step(Ev::RecvEvent(0, frame(&h, &body, &[]), t4)) {
+                    break;
+                }
+                w.observe(&sim);
+            }
+        }
+    }
     for _ in 0..n {
         let roll = if want_ts && r.chance(3, 4) { 3 } else { r.below(16) };
         want_ts = false;
@@ -832,14 +864,21 @@ pub fn gen_c14(r: &mut Rng) -> (String, Sim) {
                 }
             }
             13 => Ev::AnnounceReceiptTimer(0),
-            14 => {
-                if r.chance(1, 2) {
-                    Ev::Bmca
-                } else {
+            14 => match r.below(3) {
+                0 => Ev::Bmca,
+                1 => {
                     let f = w.announce_frame(0, &[]);
                     Ev::RecvGeneral(0, f)
                 }
-            }
+                _ => {
+                    // Announce bearing our own clock identity from a lower-numbered
+                    // port of this instance (the multiport rule of handle_announce)
+                    kinds.insert("own-announce");
+                    let h = w.hdr(ANNOUNCE, own, 0, r.next() as u16);
+                    let a = w.masters[0].ann.clone();
+                    Ev::RecvGeneral(0, frame(&h, &announce_body(&a), &[]))
+                }
+            },
             _ => match r.below(4) {
                 0 => Ev::SyncTimer(0),
                 1 => Ev::AnnounceTimer(0),
